@@ -1,4 +1,4 @@
-SPECIFICATION GSpec
+SPECIFICATION Spec
 CONSTANTS
   Srv = {1, 2}
   Names = {"a", "b"}
@@ -7,17 +7,15 @@ CONSTANTS
   MaxCuts = 1
   MaxProxies = 2
   MaxDrops = 1
-  Dev_NoCleanup = TRUE
-  Dev_RouterFirst = TRUE
-  Dev_NoLease = TRUE
+  Dev_NoCleanup = FALSE
+  Dev_RouterFirst = FALSE
+  Dev_NoLease = FALSE
   Dev_StaleKept = TRUE
   Dev_StagingUnchecked = FALSE
   Dev_IdReuse = FALSE
   Dev_LookupStaged = FALSE
   Dev_RemovedForStaged = FALSE
   Dev_EnableErrorIgnored = FALSE
-  Tag = "T"
-  MaxLen = 99
-  SampleMod = 20
-VIEW View
+INVARIANTS StaleOnlyDown
+VIEW MCView
 CHECK_DEADLOCK FALSE
